@@ -537,6 +537,13 @@ fn connack_policy(w: &mut World, conn: usize, clean_start: bool, need_id: bool) 
     let p = Packet::ConnAck { session_present: sp, reason: 0, props };
     let d = delay_us(w, t, 17);
     send(w, conn, d, &p, RxMeta::ConnAck { session_present: sp, reason: 0, semantic_ok: true });
+    if let Some(pieces) = w.raw_pieces_after_connack.take() {
+        w.raw_mode = true;
+        for (i, piece) in pieces.into_iter().enumerate() {
+            let len = piece.len();
+            w.schedule(d + i as u64 * 300 * US_PER_MS, Event::Deliver { conn, bytes: piece, metas: vec![(len, RxMeta::Raw)] });
+        }
+    }
     if let Some(raw) = w.raw_after_connack.take() {
         w.raw_mode = true;
         let len = raw.len();
@@ -1466,7 +1473,20 @@ pub fn broker_fault(w: &mut World, conn: usize) {
         return;
     }
     let t = 0xF0000 + w.event_no;
-    match pick(w, t, 1, 6) {
+    match pick(w, t, 1, 7) {
+        6 => {
+            // malformed bytes from a buggy peer or middlebox, then the stream ends
+            w.fault("broker_garbage");
+            let g: Vec<u8> = match pick(w, t, 6, 5) {
+                0 => vec![0x00, 0x00],
+                1 => vec![0x30, 0xFF, 0xFF, 0x7F],
+                2 => vec![0xD0, 0x80, 0x80, 0x80, 0x80, 0x01],
+                3 => vec![0x36, 0x03, 0x00, 0x01, b'a'],
+                _ => vec![0xD0, 0x01, 0x00],
+            };
+            send_raw(w, conn, 0, g, RxMeta::Garbage);
+            w.schedule(0, Event::Close { conn });
+        }
         0 => {
             // stale / unknown acknowledgement: an identifier far away from anything in use
             let id = w.last_client_id_seen.wrapping_add(30000).max(1);
